@@ -65,10 +65,19 @@ Theorem C49_rewrite_effect : forall (c : rwcmd) (params : list bytes) (u : url),
   rw_effect c params u (rw_do c params u) = true.
 Proof. exact rw_effect_model. Qed.
 Print Assumptions C49_rewrite_effect.
-(* Header commands: the named field of the named side becomes [v] (SET), old values ++ [v] (ADD) or absent (DEL);
+(* The parsed query cached on the request (Request.Query, which later actions and conditions read) is updated
+   together with the raw query: after QUERY_DEL it holds none of the deleted keys, after QUERY_DEL_ALL_EXCEPT only
+   listed keys. *)
+Theorem C49_cache_effect : forall (c : rwcmd) (params : list bytes) (u : url),
+  cache_effect c params (s_cache (rw_step c params (mkSt u None))) = true.
+Proof. exact cache_effect_model. Qed.
+Print Assumptions C49_cache_effect.
+
+(* Header commands: the named field of the named side becomes [v] (SET), old values ++ [v] (ADD) or absent (DEL),
+   v = the value template with every %name replaced by that variable's value (vars) and %% by %;
    every other field and the other side are untouched. *)
-Theorem C49_header_effect : forall cmd params req rsp req' rsp',
-  header_run cmd params req rsp = Some (req', rsp') -> header_effect cmd params req rsp req' rsp' = true.
+Theorem C49_header_effect : forall vars cmd params req rsp req' rsp',
+  header_run vars cmd params req rsp = Some (req', rsp') -> header_effect vars cmd params req rsp req' rsp' = true.
 Proof. exact header_effect_model. Qed.
 Print Assumptions C49_header_effect.
 Theorem C49_redirect_effect : forall cmd params u target,
@@ -78,8 +87,8 @@ Print Assumptions C49_redirect_effect.
 
 (* bfe_basic/action used directly (Action.UnmarshalJSON + Do): header commands change only the request header as
    SET/ADD/DEL say, all other commands only the URL as C49_rewrite_effect says. *)
-Theorem C49_direct_effect : forall cmd params u h u' h',
-  direct_run cmd params u h = Some (u', h') -> direct_effect (to_upper cmd) params u h u' h' = true.
+Theorem C49_direct_effect : forall cmd params u h st' h',
+  direct_run cmd params u h = Some (st', h') -> direct_effect (to_upper cmd) params u h st' h' = true.
 Proof. exact direct_effect_model. Qed.
 Print Assumptions C49_direct_effect.
 
@@ -100,7 +109,7 @@ Print Assumptions C49_query_rename.
 (* a corpus case (QUERY_DEL a on "%61=1&b=2&a&a=3") is well-formed, outside every finding class, and handled as
    stated *)
 Example C49_wf_example : wf_C49 ex_corpus_case = true /\ kf_C49 ex_corpus_case = 0
-  /\ run_C49 ex_corpus_case = VL [VB (bs "example.com"); VB (bs "/"); VB (bs "b=2")].
+  /\ run_C49 ex_corpus_case = VL [VB (bs "example.com"); VB (bs "/"); VB (bs "b=2"); VL [VL [VL [VB (bs "b"); VL [VB (bs "2")]]]]].
 Proof. exact wf_example. Qed.
 
 (* Non-vacuity: the encodings that survived the old raw-string edit (%61=1, bare a) are deleted now. *)
